@@ -89,6 +89,9 @@ func (h *c05Hier) gen(r *core.Rand, depth int, budget *int, gcount *int) []*ref.
 					d.Kind, d.Rows, d.Name = "rows", r.Range(1, 2), "R"
 				case 1:
 					d.Kind, d.Footer = "hf", strings.ToLower(d.Tag)
+					if r.Chance(1, 3) {
+						d.Footer = d.Tag // the footer pattern also matches the header line: such an instance is that one line
+					}
 				}
 			}
 			if depth < maxDepth && *budget > 0 && r.Chance(1, 4) {
@@ -117,6 +120,29 @@ func (h *c05Hier) gen(r *core.Rand, depth int, budget *int, gcount *int) []*ref.
 
 func genHier(r *core.Rand, reader string) *c05Hier {
 	h := &c05Hier{reader: reader, defMM: map[*ref.HDecl]bool{}}
+	if r.Chance(1, 40) {
+		// a chain of 10-11 records nested in each other (no groups): deeper than the readers' initial stacks (schema validation
+		// of the flat file formats is exponential in the nesting depth, hence no deeper and not often)
+		depth := r.Range(10, 11)
+		var top, cur *ref.HDecl
+		for lvl := 0; lvl < depth; lvl++ {
+			d := &ref.HDecl{Tag: c05Tags[lvl%len(c05Tags)], Kind: "tag", Min: r.Intn(2), Max: []int{1, 2, -1}[r.Intn(3)]}
+			d.Name = d.Tag
+			if lvl == 0 {
+				d.Min = 1
+			}
+			h.all = append(h.all, d)
+			if cur == nil {
+				top = d
+			} else {
+				cur.Children = []*ref.HDecl{d}
+			}
+			cur = d
+		}
+		h.decls = []*ref.HDecl{top}
+		h.all[r.Intn(len(h.all))].Target = true
+		return h
+	}
 	budget := r.Range(1, 6)
 	if r.Chance(1, 4) {
 		// deeper hierarchies: chains of three and more nested groups
@@ -176,6 +202,9 @@ func (h *c05Hier) declJSON(d *ref.HDecl) map[string]interface{} {
 			case "hf":
 				m["header"], m["footer"] = "^"+d.Tag+",", "^"+d.Footer+","
 				m["columns"] = []interface{}{col("uid", map[string]interface{}{"line_pattern": "^" + d.Tag + ","}), col("uidf", map[string]interface{}{"line_pattern": "^" + d.Footer + ","})}
+				if d.Footer == d.Tag {
+					m["columns"] = []interface{}{col("uid", map[string]interface{}{"line_pattern": "^" + d.Tag + ","})}
+				}
 			}
 		}
 		if kids != nil {
@@ -206,6 +235,9 @@ func (h *c05Hier) declJSON(d *ref.HDecl) map[string]interface{} {
 			case "hf":
 				m["header"], m["footer"] = "^"+d.Tag, "^"+d.Footer
 				m["columns"] = []interface{}{col("uid", map[string]interface{}{"line_pattern": "^" + d.Tag}), col("uidf", map[string]interface{}{"line_pattern": "^" + d.Footer})}
+				if d.Footer == d.Tag {
+					m["columns"] = []interface{}{col("uid", map[string]interface{}{"line_pattern": "^" + d.Tag})}
+				}
 			}
 		}
 		if kids != nil {
@@ -289,6 +321,9 @@ func (h *c05Hier) derive(r *core.Rand, decls []*ref.HDecl, out *[]string) {
 					}
 				case "hf":
 					*out = append(*out, d.Tag)
+					if d.Footer == d.Tag {
+						break
+					}
 					for k := 0; k < r.Intn(2); k++ {
 						*out = append(*out, c05Tags[r.Intn(4)])
 					}
